@@ -16,30 +16,78 @@ func TestC01(t *testing.T) {
 	gen := func(yield func(vt.Case)) {
 		for i, c := range allTLCCases(t) {
 			cc := fromTLC(c, "", "xor")
-			// the model prediction is recomputed by the trace spec (informational); in the
-			// thorough tier for every 4th enumerated layout only, to bound leg C's cost
-			cc["drift"] = !vt.Thorough() || i%4 == 0
+			if hasKinds(cc) {
+				cc["src"] = "list" // mixed sample kinds: one XOR chunk cannot hold them
+			}
+			// the model prediction is recomputed by the trace spec (informational) for every
+			// 3rd (quick) / 8th (thorough) enumerated layout only, to bound leg C's cost
+			cc["drift"] = i%vt.Pick(3, 8) == 0
+			cc["scripts"] = scripts(rnd, readReps(cc["reps"]), 2)
 			yield(cc)
+			if i%4 == 0 && !hasKinds(cc) { // the algorithm-independent clauses also bind the chain algorithm
+				ch := vt.Case{}
+				for k, v := range cc {
+					ch[k] = v
+				}
+				ch["algo"] = "chain"
+				yield(ch)
+			}
 		}
 		n := vt.Pick(300, 4000)
 		maxS := vt.Pick(60, 200)
 		for i := 0; i < n; i++ {
-			nrep := 1 + rnd.Intn(4)
+			nrep := 1 + rnd.Intn(5)
 			shared := rnd.Intn(3) == 0 // replicas agree on the value at a timestamp (same scrape target)
+			kinds := rnd.Intn(4) == 0  // native / float histogram samples among the floats
+			kindOf := make([]string, nrep)
+			for r := range kindOf {
+				kindOf[r] = []string{"", "h", "fh", "mix"}[rnd.Intn(4)]
+			}
 			reps := randomLayout(rnd, nrep, maxS, func(r, j int, t int64) float64 {
 				if shared {
 					return float64((t/1000)%100000 + 7)
 				}
 				return float64((r+1)*1000000 + j)
 			})
+			if kinds {
+				for r := range reps {
+					for j := range reps[r] {
+						k := kindOf[r]
+						if k == "mix" {
+							k = []string{"", "h", "fh"}[(j/3)%3]
+						}
+						reps[r][j].k = k
+					}
+				}
+			}
 			src := "xor"
-			if nonEmpty(reps) && rnd.Intn(2) == 0 {
+			if kinds || (nonEmpty(reps) && rnd.Intn(2) == 0) {
 				src = "list"
 			}
+			if kinds && !nonEmpty(reps) {
+				continue // the list iterator cannot represent an empty replica
+			}
+			algo := "penalty"
+			if rnd.Intn(3) == 0 {
+				algo = "chain"
+			}
 			f := []string{"", "sum_over_time", "max_over_time"}[rnd.Intn(3)]
-			yield(vt.Case{"reps": repsJSON(reps), "ctr": false, "f": f, "src": src,
-				"targets": randomTargets(rnd, reps, 4), "drift": totalSamples(reps) <= 60 && (!vt.Thorough() || i%4 == 0), "gen": "rand"})
+			yield(vt.Case{"reps": repsJSON(reps), "ctr": false, "f": f, "src": src, "algo": algo,
+				"targets": randomTargets(rnd, reps, 4), "scripts": scripts(rnd, reps, 3),
+				"drift": totalSamples(reps) <= 60 && (!vt.Thorough() || i%4 == 0), "gen": "rand"})
 		}
 	}
 	vt.Run(t, gen, func(vt.Case) string { return "" }, observe)
 }
+
+func hasKinds(c vt.Case) bool {
+	for _, r := range vt.List(c["reps"]) {
+		for _, s := range vt.List(r) {
+			if len(vt.List(s)) > 2 {
+				return true
+			}
+		}
+	}
+	return false
+}
+
